@@ -207,4 +207,17 @@ PROPS = {
         "not_decided": ["try_match internals (scalars, defaults, requires predicates)", "the output pattern substitution used by wire (template code outside clang 14's reach)",
                         "pattern match/resolve round trip (ts_pattern_match / _resolve)"],
     },
+    "C20": {
+        "modules": ["contracts.c20_delta", "contracts.c05_collections"],
+        "level": "proof",
+        "design_ref": "DESIGN.md section 8, C20",
+        "trusted_base": [
+            "value-layer builders (SetBuilder, BundleBuilder) as library models: a set of element ids / a field -> value map",
+            "general contract of capture_delta / apply_delta assumed for recursive calls on children (structural induction on a well-founded schema)",
+            "canonical set deltas are disjoint (ruling quoted in apply_delta_tss; for captured deltas this is SLInv of C05)",
+            "set.added()/removed() enumerate the delta bits of the current window; mutation.add/remove are set insert/erase (C05)",
+        ],
+        "assumptions": [],
+        "not_decided": ["TSL, TSD and TSW pairs", "the record/replay nodes (memory_impl) beyond the dense index arithmetic (clang 14 cannot parse their translation unit)"],
+    },
 }
